@@ -45,7 +45,7 @@ class AllocGen:
 
     def stmt(self, depth):
         r = self.r
-        w = [3 if depth == 0 else 0, 5 if self.refs else 0, (2 if self.views_on and self.allocs and depth == 0 else 0), (1 if self.views_on and self.refs and depth == 0 else 0), 1 if depth < 2 and self.refs else 0, 1 if depth < 2 and self.refs else 0, (2 if self.views_on and len(self.refs) >= 2 and depth == 0 else 0)]
+        w = [3 if depth == 0 else 0, 5 if self.refs else 0, (2 if self.views_on and self.allocs and depth == 0 else 0), (1 if self.views_on and self.refs and depth == 0 else 0), 1 if depth < 2 and self.refs else 0, 1 if depth < 2 and self.refs else 0, (4 if self.views_on and len(self.refs) >= 2 and depth == 0 else 0)]
         k = r.choices(["alloc", "use", "view", "cast", "for", "if", "select"], w)[0]
         if k == "select":
             # a join: one value that is one of two buffers (same type) depending on a run-time condition
@@ -62,7 +62,7 @@ class AllocGen:
                 self.refs.append(nm)
                 self.site_of[nm] = [self.site_of[a], self.site_of[b]]
                 self.joins.append(nm)
-                return {"k": "select", "name": nm, "cond": r.choice([0, 1]), "a": a, "b": b, "via": r.choice(["select", "select", "if", "for", "while"]), "trips": r.choice([0, 1, 2])}
+                return {"k": "select", "name": nm, "cond": r.choice([0, 1]), "a": a, "b": b, "via": r.choice(["select", "select", "if", "if", "for", "while"]), "trips": r.choice([0, 1, 2]), "inner_cast": r.random() < 0.5}
         if k == "alloc":
             nm = self.fresh("b")
             el = r.choice(list(ELB))
@@ -174,7 +174,12 @@ def emit(ast, p=(0, 0), fname="f", wrap=True) -> str:
                     # the same join through the results of an scf.if: the buffers leave the regions through scf.yield
                     ty = T[s["name"]]
                     e(ind, f'{s["name"]} = scf.if %p{s["cond"]} -> ({ty}) {{')
-                    e(ind + 1, f'scf.yield {s["a"]} : {ty}')
+                    if s.get("inner_cast"):
+                        # ... one of them as a cast that only exists inside the region
+                        e(ind + 1, f'%ic{s["name"][1:]} = builtin.unrealized_conversion_cast {s["a"]} : {ty} to {ty}')
+                        e(ind + 1, f'scf.yield %ic{s["name"][1:]} : {ty}')
+                    else:
+                        e(ind + 1, f'scf.yield {s["a"]} : {ty}')
                     e(ind, "} else {")
                     e(ind + 1, f'scf.yield {s["b"]} : {ty}')
                     e(ind, "}")
